@@ -98,7 +98,7 @@ CHECKS = {
     "C03": dict(
         level="model_checking", engine="M (MIR -> SMT over reals) + driver glue",
         technique="SMT (non-linear real arithmetic, ln uninterpreted and monotone, sqrt by its defining equation) over the MIR of dp_event::{gaussian_noise_multiplier, gaussian_noise} and DpAggregatesParameters::split: calibration, composition and monotonicity lemmas for all epsilon, delta, n, C; concrete glue over the relations and events returned by the real compiler (lineage of every noised column to its clip literal, budget sum, event entries)",
-        text="Lemmas (all epsilon > 0, 0 < delta < 1, n >= 1, C >= 0 below the f64::MAX clamp): multiplier * epsilon = sqrt(2 ln(1.25/delta)); split(n) parts sum to the whole; the recorded multiplier never exceeds the one applied after splitting; sigma = multiplier * C. Glue on 10 queries x 2-3 parameter sets: one Gaussian entry per noised column with recorded multiplier <= sigma / C, sum of per-column epsilons (delta split evenly) <= the aggregation's share, key release recorded with at least the (eps, delta) that reproduces tau, shares sum to the total.",
+        text="Lemmas (all epsilon > 0, 0 < delta < 1, n >= 1, C >= 0 below the f64::MAX clamp): multiplier * epsilon = sqrt(2 ln(1.25/delta)); split(n) parts sum to the whole; the recorded multiplier never exceeds the one applied after splitting; sigma = multiplier * C. Glue on 10 queries x 2-3 parameter sets: one Gaussian entry per noised column with recorded multiplier <= sigma / C, sum of per-column epsilons under the best admissible split of delta <= the aggregation's share, key release recorded with at least the (eps, delta) that reproduces tau, shares sum to the total.",
         note="The glue is concrete enumeration over compiled queries (stated as such); optimal accounting, epsilon > 1 and float rounding are outside the claim.",
         design="3 C03"),
 }
